@@ -16,7 +16,7 @@
    [check] is the checker of the property itself on the implementation's observation. *)
 From Coq Require Import List Arith Bool Lia.
 Import ListNotations.
-From Onet Require Export Base.Corr Net.RouterClose Net.CloseSeq.
+From Onet Require Export Base.Corr Net.RouterClose Net.CloseSeq Net.CloseConc.
 
 (* which variant of the code the correspondence compares with; the integrator flips a
    flag when the corresponding fix commit lands in /repo *)
@@ -272,18 +272,40 @@ Definition agree_server (insts : list nat) (ms : list smacro) (o : sobs) : bool 
   Bool.eqb (match cpc s with KReturned => true | _ => false end) (s_returned o) &&
   (length (instances s) =? s_instances o) && Bool.eqb (tcrashed s) (s_panic o).
 
+(* ---- overlapping Close() calls ------------------------------------------------ *)
+
+(* k calls of Server.Close() released together on a started server with a temporary
+   database (LocalTest): the observed results are compared with those of the run the
+   deterministic scheduler of Net/CloseConc.v produces on the model of the code as it is
+   (cta = false).  By c10_concurrent_close_results they are the same for every schedule. *)
+Definition count_pc (f : kpc -> bool) (l : list kpc) : nat := length (filter f l).
+Definition pc_ok (p : kpc) : bool := match p with KRet Ok => true | _ => false end.
+Definition pc_err (p : kpc) : bool := match p with KRet Err => true | _ => false end.
+
+Definition race_model (k n : nat) : kstate :=
+  sched false true code_fixed_F11 (13 * k + 8) (kinit true init n k).
+
+Definition agree_closerace (k n oks errs pending : nat) (o : sobs) : bool :=
+  let s := race_model k n in
+  (count_pc pc_ok (callers s) =? oks) && (count_pc pc_err (callers s) =? errs) &&
+  (count_pc (fun p => negb (returned p)) (callers s) =? pending) &&
+  Bool.eqb (forallb returned (callers s)) (s_returned o) &&
+  (instances_k s =? s_instances o) && negb (s_panic o).
+
 (* ---- cases ------------------------------------------------------------------ *)
 
 Inductive case :=
 | RouterScript (tcp : bool) (ms : list macro) (o : robs)
 | RouterRace (tcp : bool) (nin : nat) (o : robs)
-| ServerClose (insts : list nat) (ms : list smacro) (o : sobs).
+| ServerClose (insts : list nat) (ms : list smacro) (o : sobs)
+| ServerCloseRace (k n oks errs pending : nat) (o : sobs).
 
 Definition agree (c : case) : bool :=
   match c with
   | RouterScript tcp ms o => agree_script tcp ms o
   | RouterRace _ nin o => agree_race nin o
   | ServerClose insts ms o => agree_server insts ms o
+  | ServerCloseRace k n oks errs pending o => agree_closerace k n oks errs pending o
   end.
 
 Definition mismatches (l : list case) : list nat := mism_idx agree l.
@@ -326,6 +348,7 @@ Definition check (c : case) : list nat :=
   | RouterScript _ _ o => check_router o
   | RouterRace _ _ o => check_router o
   | ServerClose _ _ o => check_server o
+  | ServerCloseRace _ _ _ _ _ o => check_server o
   end.
 
 Definition violations (l : list case) : list (nat * nat) := viols check l.
